@@ -12,14 +12,14 @@ W_RULES = [
     dict(rule="R2", kind="re", dotall=True, pat=r"self\.current_offset\.lock\(\)\.map_err\(\|_\| \{\s*std::io::Error::new\([^;]*?\)\s*\}\)\?", repl="&mut self.current_offset", why="Mutex guard -> &mut field"),
     dict(rule="R7", kind="re", pat=r"FileStateTracker::set_block_unlocked\(", repl="g.set_block_unlocked(", why="tracker call -> explicit globals"),
     dict(rule="R6", kind="re", pat=r"(\w+)\.mmap\.flush\(\)", repl=r"sys_flush(sys, &\1.mmap)", why="SharedMmap::flush -> ghost-disk stub"),
-    dict(rule="R5", kind="re", pat=r"unsafe \{ self\.allocator\.alloc_block\((\w+)\) \}", repl=r"self.allocator.alloc_block(sys, \1)", why="allocator call (unsafe fn; its SAFETY condition is the writer holding both mutexes)"),
+    dict(rule="R5", kind="re", pat=r"unsafe \{ self\.allocator\.alloc_block\((\w+)\) \}", repl=r"self.allocator.alloc_block(sys, Ghost(self.reader.chain_log@), Ghost(*block), \1)", why="allocator call (unsafe fn; its SAFETY condition is the writer holding both mutexes)"),
     dict(rule="R6", kind="re", pat=r"block\.write\(", repl="block.write(sys, ", why="Block::write gets the ghost disk"),
+    dict(rule="R6", kind="re", pat=r"block\.zero_range\(", repl="block.zero_range(sys, ", min=0, why="Block::zero_range gets the ghost disk"),
     dict(rule="R2", kind="re", pat=r"&self\.col\b", repl="self.col.as_str()", why="&String -> &str"),
 ] + IOERR_RULES
 
 UNIT = dict(
     name="writer_write",
-    wip=True,
     props=["C04", "C01", "C07", "C10"],
     prelude=["core_types.rs", "str_ext.rs", "engine.rs", "sys_model.rs"],
     assumptions=[
@@ -42,12 +42,56 @@ UNIT = dict(
             ("fsync_schedule", "FsyncSchedule", "FsyncSchedule"), ("is_batch_writing", "AtomicBool", "bool")]),
         dict(kind="fn", file=WRT, path="impl Writer / fn write", sig_rules=[dict(pat=r"&self,", repl="&mut self, sys: &mut Sys, g: &mut GlobalsW,")] + IOERR_SIG,
              rules=W_RULES,
+             hints=[
+                 dict(before="        let mut block = &mut self.current_block;", text="""        let ghost log0 = self.reader.chain_log@;
+        let ghost blk0 = self.current_block;
+        let ghost cur0 = self.current_offset;
+        let ghost files0 = sys.files@;
+        let ghost col0 = self.col@;"""),
+                 dict(after="            *cur = 0;\n        }", text="""        let ghost log1 = self.reader.chain_log@;
+        let ghost blk1 = *block;
+        let ghost cur1 = *cur;
+        proof {
+            // after a rotation the sealed block carries exactly what the active block held, and the new block is empty
+            assert(chain_payloads(log1, col0, files0) + payloads_d(files0[blk1.mmap.file], blk1.offset as int, blk1.offset + cur1)
+                   == chain_payloads(log0, col0, files0) + payloads_d(files0[blk0.mmap.file], blk0.offset as int, blk0.offset + cur0)) by {
+                if log1 != log0 {
+                    assert(log1.drop_last() =~= log0);
+                    assert(chain_payloads(log1, col0, files0) == chain_payloads(log0, col0, files0) + payloads_d(files0[blk0.mmap.file], blk0.offset as int, blk0.offset + cur0));
+                    assert(payloads_d(files0[blk1.mmap.file], blk1.offset as int, blk1.offset + cur1) =~= Seq::<Seq<u8>>::empty());
+                    assert(chain_payloads(log1, col0, files0) + Seq::<Seq<u8>>::empty() =~= chain_payloads(log1, col0, files0));
+                }
+            }
+        }"""),
+                 dict(after="        *cur += need;", text="""        let ghost files2 = sys.files@;
+        proof {
+            let f = blk1.mmap.file;
+            let a = blk1.offset + cur1;
+            let d1 = files0[f];
+            let d2 = files2[f];
+            assert(d2.len() == d1.len());
+            assert forall|i: int| 0 <= i < d1.len() && !(a <= i < a + need) implies #[trigger] d2[i] == d1[i] by {}
+            lemma_packed_append(d1, d2, blk1.offset as int, a, data@, col0, next_block_start);
+            lemma_chain_frame(log1, col0, files0, files2, f, a, a + need);
+        }"""),
+                 dict(before="                    return Err(e);", count=None, text="""                    proof {
+                        // rollback after a failed SyncEach flush: the header is zeroed behind the restored offset, nothing before it changed
+                        let files3 = sys.files@;
+                        let f = blk1.mmap.file;
+                        let a = blk1.offset + cur1;
+                        assert forall|i: int| 0 <= i < files0[f].len() && !(a <= i < a + need) implies #[trigger] files3[f][i] == files0[f][i] by {}
+                        lemma_payloads_frame(files0[f], files3[f], blk1.offset as int, a);
+                        lemma_chain_frame(log1, col0, files0, files3, f, a, a + need);
+                    }"""),
+             ],
              requires=[("", "wf_writer(old(self).current_block, old(self).current_offset, *old(sys))"),
+                       ("", "wf_chain(old(self).reader.chain_log@, old(self).current_block, old(self).current_offset, *old(sys))"),
                        ("", "data@.len() <= 0x4000_0000_0000")],
              ensures=[
-                 ("C04:failed_append_leaves_no_trace",
-                  "ret is Err ==> final(self).current_block == old(self).current_block && final(self).current_offset == old(self).current_offset && final(self).reader.chain_log == old(self).reader.chain_log && final(sys).files@ == old(sys).files@"),
-                 ("C01,C07:writer_stays_wellformed", "wf_writer(final(self).current_block, final(self).current_offset, *final(sys))"),
+                 ("C04:failed_append_leaves_no_trace", "ret is Err ==> topic_log(*final(self), *final(sys)) == topic_log(*old(self), *old(sys))"),
+                 ("C01:successful_append_extends_the_topic_log_by_exactly_this_payload", "ret is Ok ==> topic_log(*final(self), *final(sys)) == topic_log(*old(self), *old(sys)).push(data@)"),
+                 ("C01,C07:writer_stays_wellformed", "wf_writer(final(self).current_block, final(self).current_offset, *final(sys)) && wf_chain(final(self).reader.chain_log@, final(self).current_block, final(self).current_offset, *final(sys))"),
+                 ("C04:append_never_renames_the_topic", "final(self).col == old(self).col"),
              ]),
     ],
 )
